@@ -12,8 +12,14 @@ import vlib
 UNMASK = ["todo_operand", "p_neg", "p_as_var"]
 
 
+SPELL = {}
+
+
 def run_syn(out, path, seed, run_label):
-    p = vlib.run_bin("syncheck", ["--threads", str(vlib.NCPU)], stdin_path=path, env={"VERIF_SEED": str(seed)}, timeout=7200)
+    args = ["--threads", str(vlib.NCPU)]
+    if SPELL.get("path"):
+        args += ["--spellings", SPELL["path"]]
+    p = vlib.run_bin("syncheck", args, stdin_path=path, env={"VERIF_SEED": str(seed)}, timeout=7200)
     if p.returncode != 0:
         raise vlib.ToolError("syncheck crashed: " + p.stderr.decode()[-2000:])
     recs = vlib.json_lines(p.stdout)
@@ -45,6 +51,13 @@ def run(out, tier, seed):
         vlib.require_ok(r, cfg)
         out.add_tlc(r, "MC Balanced + GEN (BFS) " + cfg)
         main.append(r)
+        if not SPELL:
+            # the literal classes of the specification (GleamSyn.LiteralSpellings)
+            sp = list(r.cases("SPELL"))
+            if not sp:
+                raise vlib.ToolError("GleamSyn did not print its literal classes")
+            SPELL["path"] = os.path.join(vlib.workdir("c04-spell"), "spellings.json")
+            json.dump(sp[0], open(SPELL["path"], "w"))
     nsim, per = (4, 50) if tier == "quick" else (12, 2500)
     jobs = [dict(module="GleamSyn", cfg="GleamSyn_sim.cfg", workers=1, simulate=per, depth=3000, seed=seed * 1000 + i, timeout=3000, name=f"gs-sim-{i}")
             for i in range(nsim)]
